@@ -87,8 +87,8 @@ def oracle(ctx, script, real):
                 for j in aff:
                     run[j] = False
                     pend[j] = []        # power-off discards everything still queued - also on the children it switches off
-        elif op[0] == "data" and len(op[2]) in (154, 156, 450, 452) and e["obs"][:1] == [2] and (e["obs"] == [2, 1]) != (run[op[1]] and (op[2][0] >> 4) == ver[op[1]]):
-            # a complete L1 datagram is queued iff the transceiver is powered on and the datagram carries the header version in force
+        elif op[0] == "data" and len(op[2]) in (6, 154, 156, 450, 452) and e["obs"][:1] == [2] and (e["obs"] == [2, 1]) != (run[op[1]] and (op[2][0] >> 4) == ver[op[1]]):
+            # a complete L1 datagram (header only, or header + 148 / 444 bits with or without the two legacy padding octets) is queued iff the transceiver is powered on and the datagram carries the header version in force
             ctx.oracle_fail("a complete burst datagram was %s although the transceiver is %s and the header version in force is %d (datagram: version %d)"
                             % ("queued" if e["obs"] == [2, 1] else "dropped", "on" if run[op[1]] else "off", ver[op[1]], op[2][0] >> 4),
                             dict(trx=op[1], trx_defs=defs, ops=[SC.describe(x) for x in ops]), key="c03-accept-iff-on-and-version")
